@@ -651,3 +651,54 @@ package litefs
 // the closure of CommitJournal that clears the checksums of truncated pages
 //@ func litefs.DB.CommitJournal$5
 //@   loop 1 invariant dbWF(db) && db.pageSize != 0 && commit <= i
+
+// ===========================================================================
+// db.go — aggregate checksum (C04): safety, frame and flag-bit contracts.
+
+// Keys of the WAL checksum overlays are page numbers (never zero).
+//@ pred walKeysPositive(db *DB) = forall p uint32 :: has(db.wal.chksums, p) ==> p > 0
+
+//@ func (db *DB) pageChecksum [C04,C03,C02]
+//@   requires  db != nil && pgno > 0 && db.pageSize != 0 && len(db.chksums.pages) <= 0xffffffff
+//@   modifies
+//@   ensures   pgno == ltx.LockPgno(db.pageSize) ==> chksum == 0 && ok
+//@   ensures   pgno != ltx.LockPgno(db.pageSize) && pgno > pageN ==> !ok
+//@   nopanic
+
+//@ func (db *DB) recomputeBlockChksum [C04]
+//@   requires  db != nil && len(db.chksums.pages) <= 0xffffffff && len(db.chksums.blocks) <= 0xffffffff && block <= 0xffffff && chkArraysDisjoint(db)
+//@   loop 1 invariant i <= 256 && len(db.chksums.blocks) > int(block)
+//@   loop 1 decreases 256 - int(i)
+//@   modifies  db.chksums.blocks, contents(db.chksums.blocks)
+//@   ensures   len(db.chksums.blocks) > int(block) && len(db.chksums.blocks) >= old(len(db.chksums.blocks)) && len(db.chksums.blocks) <= 0xffffffff
+//@   ensures   db.chksums.blocks[int(block)] & ltx.ChecksumFlag != 0
+//@   ensures   chkArraysDisjoint(db)
+//@   nopanic
+
+//@ func (db *DB) blockChksum [C04]
+//@   requires  db != nil && len(db.chksums.pages) <= 0xffffffff && len(db.chksums.blocks) <= 0xffffffff && block <= 0xffffff && chkArraysDisjoint(db)
+//@   modifies  db.chksums.blocks, contents(db.chksums.blocks)
+//@   ensures   len(db.chksums.blocks) <= 0xffffffff && chkArraysDisjoint(db)
+//@   ensures   result != 0
+//@   nopanic
+
+// checksum(pageN, new): never panics for any page count and any overlay keys; only fills the block cache;
+// a successful result carries the flag bit; pageN == 0 gives exactly the empty checksum.
+//@ func (db *DB) checksum [C04,C03,C02,C15]
+//@   requires  dbWF(db) && db.pageSize != 0 && walKeysPositive(db) && (forall p uint32 :: has(newWALChecksums, p) ==> p > 0)
+//@   requires  pageN <= 0xffffff00
+//@   loop 1 invariant len(ignoredBlocks) == int(blockN)
+//@   loop 1 modifies contents(ignoredBlocks)
+//@   loop 2 invariant len(ignoredBlocks) == int(blockN)
+//@   loop 2 modifies contents(ignoredBlocks)
+//@   loop 3 invariant len(ignoredBlocks) == int(blockN) && dbWF(db) && db.pageSize != 0 && block <= blockN &&
+//@          ((block == 0 && chksum == 0) || chksum & ltx.ChecksumFlag != 0)
+//@   loop 3 modifies db.chksums.blocks, contents(db.chksums.blocks)
+//@   loop 4 invariant i <= 256 && block < blockN && (i > 0 ==> chksum & ltx.ChecksumFlag != 0) &&
+//@          ((block == 0 && chksum == 0) || chksum & ltx.ChecksumFlag != 0)
+//@   loop 4 modifies
+//@   modifies  db.chksums.blocks, contents(db.chksums.blocks)
+//@   ensures   dbWF(db)
+//@   ensures   pageN == 0 ==> result0 == ltx.ChecksumFlag && err == nil
+//@   ensures   err == nil ==> result0 & ltx.ChecksumFlag != 0
+//@   nopanic
